@@ -862,7 +862,7 @@ func judgeServe(client netip.Addr, internal, rd, cd bool, qclass, qtype uint16, 
 			okT := false
 			if a16, ok := oracleArpa(qname); ok {
 				for _, p := range o.prefixes {
-					if v4, ok := rfcExtract(p, a16); ok && !o.mustSkip(p, netip.AddrFrom4(v4)) && inAddrName(v4) == tgt {
+					if v4, ok := rfcExtract(p, a16); ok && inAddrName(v4) == tgt {
 						okT = true
 					}
 				}
